@@ -69,7 +69,7 @@ def load_module(path: str):
 _WRAP_N = [0]
 
 
-def make_wrapper(mod, fn, exclude, scratch):
+def make_wrapper(mod, fn, exclude, scratch, helpers=()):
     """A source-backed wrapper with the same signature and preconditions plus 'not region' for every
     known-finding region, so the rest of the obligation is still decided."""
     _WRAP_N[0] += 1
@@ -79,7 +79,7 @@ def make_wrapper(mod, fn, exclude, scratch):
     posts = [ln.strip() for ln in doc.splitlines() if ln.strip().startswith("post:")]
     names = list(sig.parameters)
     wname = f"{fn.__name__}__x{_WRAP_N[0]}"
-    lines = [f"from {mod.__name__} import {fn.__name__} as _inner", "", f"def {wname}{sig}:", '    """']
+    lines = [f"from {mod.__name__} import {fn.__name__} as _inner"] + [f"from {h} import *" for h in helpers] + ["", f"def {wname}{sig}:", '    """']
     lines += [f"    {p}" for p in pres]
     lines += [f"    pre: not ({r})" for r in exclude]
     lines += [f"    {p}" for p in posts]
@@ -165,7 +165,7 @@ def run_task(task):
     mod = load_module(task["module_path"])
     fn = getattr(mod, task["function"])
     hlib.TWIN = False
-    target = make_wrapper(mod, fn, task.get("exclude") or [], scratch) if task.get("exclude") else fn
+    target = make_wrapper(mod, fn, task.get("exclude") or [], scratch, task.get("helpers") or []) if task.get("exclude") else fn
     out = {"id": task["id"]}
     if task.get("twin_only"):
         main = {"status": "skipped"}
